@@ -11,6 +11,7 @@ import (
 	"time"
 
 	"github.com/btcsuite/btcd/btcutil"
+	"github.com/btcsuite/btcd/btcutil/hdkeychain"
 	"github.com/btcsuite/btcd/btcutil/psbt"
 	"github.com/btcsuite/btcd/chaincfg/chainhash"
 	"github.com/btcsuite/btcd/txscript"
@@ -20,6 +21,7 @@ import (
 	"github.com/btcsuite/btcwallet/wtxmgr"
 
 	"verif/internal/evid"
+	"verif/internal/oracle"
 	"verif/internal/wh"
 )
 
@@ -86,6 +88,26 @@ func runWallet(r *evid.Run, dir string, cs int64) {
 		case 1:
 			if _, err := f.W.LeaseOutput(wtxmgr.LockID{1}, c.Op, time.Hour); err == nil {
 				c.Leased = true
+			}
+		}
+	}
+	// half of the wallets also have an imported (watch-only) xpub account in the
+	// nested-P2WKH scope (not the taproot scope: without a coin scope the wallet
+	// decides "watch-only" from the taproot scope's account of that number, O-15);
+	// its number equals that of the KEYED second account of the
+	// P2WKH scope (account numbers are per scope).  Requests spending the keyed
+	// account may ask for their change in the other scope.
+	var changeScope *waddrmgr.KeyScope
+	if rg.Intn(2) == 0 {
+		sd := make([]byte, 32)
+		rg.Read(sd)
+		if leg, _, _, err := oracle.AccountKey(sd, 49, 0, 0); err == nil {
+			pub := leg.Neuter()
+			hd := hdkeychain.NewExtendedKey(f.Params.HDPublicKeyID[:], pub.Pub[:], pub.Chain[:], []byte{1, 2, 3, 4}, 3, oracle.H, false)
+			at := waddrmgr.NestedWitnessPubKey
+			if props, err := f.W.ImportAccount(fmt.Sprintf("imported-%d", rg.Intn(1e6)), hd, rg.Uint32(), &at); err == nil && props.AccountNumber == f.Acct1 && props.KeyScope == waddrmgr.KeyScopeBIP0049Plus {
+				sc := waddrmgr.KeyScopeBIP0049Plus
+				changeScope = &sc
 			}
 		}
 	}
@@ -186,7 +208,14 @@ func runWallet(r *evid.Run, dir string, cs int64) {
 				tx = atx.Tx
 			}
 		case "create":
-			atx, e := f.W.CreateSimpleTx(rq.scope, rq.acct, outs, rq.minconf, rq.rate, rq.strategy, false)
+			var opts []wallet.TxCreateOption
+			if changeScope != nil && rq.scope != nil && *rq.scope == waddrmgr.KeyScopeBIP0084 && rq.acct == f.Acct1 {
+				// coins of the keyed account, change to the imported account of the
+				// same number in another scope: the result is still to be signed
+				opts = append(opts, wallet.WithCustomChangeScope(changeScope))
+				r.Hit("created-with-change-in-another-scope", 1)
+			}
+			atx, e := f.W.CreateSimpleTx(rq.scope, rq.acct, outs, rq.minconf, rq.rate, rq.strategy, false, opts...)
 			err = e
 			if e == nil {
 				tx = atx.Tx
@@ -481,6 +510,7 @@ func main() {
 	r.Require("transactions-created", 150)
 	r.Require("transactions-script-verified", 80)
 	r.Require("inputs-checked", 200)
+	r.Require("created-with-change-in-another-scope", 1)
 	r.Require("ineligible-picks-refused:locked", 2)
 	r.Require("ineligible-picks-refused:leased", 2)
 	r.Require("ineligible-picks-refused:already-spent", 2)
